@@ -70,6 +70,29 @@ Theorem rewrite_sound : forall (x : bytes) (body : node) (sv sr : istate),
   /\ reg_related x (snd (ieval None body sv)) (snd (ieval (Some x) (subst_reg x body) sr)).
 Proof. exact rewrite_sound_lemma. Qed.
 
+(* "any loop variable name, any number of iterations": a counted loop `for x = i:i+n {body}` over a body of the integer
+   fragment, for EVERY n (no bound): running the rewritten body with the loop variable in the register (set to the
+   counter before each iteration) gives the same loop value as running the original body with the loop variable
+   as an ordinary binding (set before each iteration), including bodies that assign the loop variable, and
+   leaves every other name bound alike. Nothing is assumed about what the two sides held for x before the loop. *)
+Theorem loop_rewrite_sound : forall (x : bytes) (body : node) (n : nat) (i : Z) (sv sr : istate) (last : ires),
+  others_related x sv sr ->
+  fst (iloop None x body i n sv last) <> IUnsupported ->
+  fst (iloop (Some x) x (subst_reg x body) i n sr last) = fst (iloop None x body i n sv last)
+  /\ others_related x (snd (iloop None x body i n sv last))
+                      (snd (iloop (Some x) x (subst_reg x body) i n sr last)).
+Proof. exact loop_rewrite_sound_lemma. Qed.
+
+(* "any integer parameter": binding the parameter to the argument (variable mode) vs putting the argument in a
+   register (register mode) at the call, then running the original vs the rewritten body *)
+Theorem param_rewrite_sound : forall (x : bytes) (body : node) (v : Z) (sv sr : istate),
+  others_related x sv sr ->
+  fst (ieval None body (update x v (fst sv), snd sv)) <> IUnsupported ->
+  fst (ieval (Some x) (subst_reg x body) (fst sr, v)) = fst (ieval None body (update x v (fst sv), snd sv))
+  /\ others_related x (snd (ieval None body (update x v (fst sv), snd sv)))
+                      (snd (ieval (Some x) (subst_reg x body) (fst sr, v))).
+Proof. exact param_rewrite_sound_lemma. Qed.
+
 (* ---- the full statement holds of skeleton sessions (control outcomes) ---- *)
 Definition skeleton_run (regs : bool) (inputs : list skel) : list okind :=
   map fst (fst (run_session (repaired regs) inputs new_session)).
@@ -77,6 +100,16 @@ Definition skeleton_run (regs : bool) (inputs : list skel) : list okind :=
 Theorem skeleton_reg_unobservable :
   reg_unobservable (list skel) (list okind) (fun _ => false) skeleton_run.
 Proof. exact (fun p => skeleton_sessions_lemma p false). Qed.
+
+(* "any number of loops executed in one session": for every list of inputs submitted one after the other to one
+   session (no bound on its length), no input ever ends in a failure of the register machinery ("No more registers",
+   "Releasing non last register") and the session's control state - in particular the register count of the root
+   environment - is at the end what it was at the start *)
+Theorem any_number_of_loops_in_one_session : forall (r : bool) (l : list skel) (s : session),
+  top_level (st s) ->
+  Forall (fun ot : okind * list probe => no_register_failure (fst ot)) (fst (run_session (repaired r) l s))
+  /\ st (snd (run_session (repaired r) l s)) = st s.
+Proof. exact long_session_lemma. Qed.
 
 (* ---- the tree as pinned violated all of this (witnesses) ---- *)
 Definition brk_loop : skel := KLoop true true [KLeaf LNormal; KLeaf LBreak].
@@ -170,7 +203,31 @@ Proof.
          | vm_compute; repeat split; reflexivity].
 Qed.
 
+(* `for n = 3:7 { t = t + n; n = n * 2; t }` with t = 1 before: the body assigns the loop variable, the counter
+   wins at the next iteration; variable mode and register mode agree on the loop value 19 and on t *)
+Definition loop_body : node :=
+  NStmts [Some (NInfix (tkn token_ASSIGN [61%N]) (Some idt) (Some (NInfix (tkn token_PLUS [43%N]) (Some idt) (Some idn))));
+          Some (NInfix (tkn token_ASSIGN [61%N]) (Some idn) (Some (NInfix (tkn token_ASTERISK [42%N]) (Some idn) (Some two))));
+          Some idt].
+Example C05_ex_loop_rewrite_sound :
+  fst (iloop None [110%N] loop_body 3 4 ([([116%N], 1%Z)], 0%Z) INil) = IVal 19
+  /\ fst (iloop (Some [110%N]) [110%N] (subst_reg [110%N] loop_body) 3 4 ([([116%N], 1%Z)], 77%Z) INil) = IVal 19
+  /\ lookup [116%N] (fst (snd (iloop (Some [110%N]) [110%N] (subst_reg [110%N] loop_body) 3 4 ([([116%N], 1%Z)], 77%Z) INil))) = Some 19%Z
+  /\ snd (snd (iloop (Some [110%N]) [110%N] (subst_reg [110%N] loop_body) 3 4 ([([116%N], 1%Z)], 77%Z) INil)) = 12%Z.
+Proof. vm_compute. repeat split; reflexivity. Qed.
+
 Print Assumptions regfile_balanced.
+(* 60 loops left by break in one session: all fine on the repaired tree, root numReg back to 0; the pinned tree
+   fails at the 9th (C05_refuted_pinned_leak) *)
+Example C05_ex_long_session :
+  map fst (fst (run_session (repaired true) (repeat brk_loop 60) new_session)) = repeat OValue 60
+  /\ st (snd (run_session (repaired true) (repeat brk_loop 60) new_session)) = st new_session
+  /\ nth_error (map fst (fst (run_session (pinned true) (repeat brk_loop 9) new_session))) 8 = Some (OPanic PNoRegisters).
+Proof. vm_compute. repeat split; reflexivity. Qed.
+
+Print Assumptions any_number_of_loops_in_one_session.
+Print Assumptions loop_rewrite_sound.
+Print Assumptions param_rewrite_sound.
 Print Assumptions rewrite_sound.
 Print Assumptions regfile_never_overflows.
 Print Assumptions release_is_lifo.
